@@ -37,7 +37,7 @@ def buildReturnSig (bodySig : Option Sg) (arg : ArgCtx) (deps : List (String × 
   let a ← argPairs arg
   let body := match bodySig with | none => [] | some b => [("body_sig", b)]
   pure (hashCommut (body ++ a ++ deps.map (fun (p, s) => ("dep_" ++ p, s)) ++ fisSigList subs
-    ++ extDeps.map (fun (l, cp) => ("ext_dep_" ++ l, hStr cp))
+    ++ extDeps.map (fun (l, cp) => ("ext_dep_" ++ l, hStr ("<" ++ cp ++ ">")))
     ++ extVars.map (fun (l, s) => ("ext_variable_" ++ l, s))))
 
 /-- the context signature of `inspect_call` -/
